@@ -33,6 +33,8 @@ ASSUMPTIONS = [
     "are modelled on ASCII); audiences are not used",
     "moving an alias from one cluster to another while its per-host cache is alive is outside the property's quantifier "
     "(cluster_of is static in the model); noted, not checked",
+    "a server (endpoint URL, with its upstream identity) is in the server list of at most one cluster at a time; "
+    "re-homing = removal from one cluster followed by addition to another",
     "a cluster whose ClusterInfo is stopped is replaced by a new ClusterInfo before the next request (ORestart); requests "
     "racing with the cache-dropping goroutine are not modelled",
 ]
@@ -78,8 +80,16 @@ def sstatus(c, allowed, denied=False):
             "reason": "%s@%s" % ("ok" if allowed and not denied else "no", c)}
 
 
+def srv(c, i):
+    """name of the i-th initial server of cluster c"""
+    return "%ss%d" % (c, i)
+
+
 def base_cfg(reg, neps, sttl=100, fttl=10, attl=100, dttl=10):
-    return {"reg": [list(p) for p in reg], "neps": dict(neps), "sttl": sttl, "fttl": fttl, "attl": attl, "dttl": dttl}
+    """neps: cluster -> number of initial servers (named <c>s0, <c>s1, ...)"""
+    return {"reg": [list(p) for p in reg],
+            "servers": [{"c": c, "s": [srv(c, i) for i in range(n)]} for c, n in sorted(dict(neps).items())],
+            "sttl": sttl, "fttl": fttl, "attl": attl, "dttl": dttl}
 
 
 def authn(h, tok, now, hvia="direct"):
@@ -100,11 +110,23 @@ def authz(h, a, now, hvia="direct", avia=""):
 
 
 def healthy(c, i, b=True):
-    return {"op": "healthy", "c": c, "i": i, "b": b}
+    return {"op": "healthy", "srv": srv(c, i), "b": b}
 
 
 def disabled(c, i, b=True):
-    return {"op": "disabled", "c": c, "i": i, "b": b}
+    return {"op": "disabled", "srv": srv(c, i), "b": b}
+
+
+def healthy_srv(s, b=True):
+    return {"op": "healthy", "srv": s, "b": b}
+
+
+def addep(c, s):
+    return {"op": "addep", "c": c, "srv": s}
+
+
+def removeep(c, s):
+    return {"op": "removeep", "c": c, "srv": s}
 
 
 def corpus():
@@ -224,6 +246,24 @@ def corpus():
                             disabled("c2", 0), overlapt("alias1", "c2", "t2", 3), overlaps("alias1", "c2", ATTRS[2], 3),
                             disabled("c2", 0, False), overlapt("c1", "c2", "t3", 200), overlaps("c1", "c2", ATTRS[3], 200),
                             authn("c2", "t3", 201), authz("c2", ATTRS[3], 201)]})
+    # 10. SERVER LISTS change (ClusterInfo.Sync): a server is removed from c1 and re-homed to c2 while healthy; reviews
+    #     that miss the caches (new tokens / attributes, TTL 0) must go to a CURRENT ready endpoint of the host's cluster
+    for ttls in (dict(sttl=0, fttl=0, attl=0, dttl=0), dict(sttl=1000, fttl=1000, attl=1000, dttl=1000)):
+        cs.append({"cfg": base_cfg(reg, neps, **ttls), "via": "token",
+                   "tscript": {"c1": [tauth("c1")] * 8, "c2": [tauth("c2", "root")] * 8},
+                   "sscript": {"c1": [sstatus("c1", False, True)] * 8, "c2": [sstatus("c2", True)] * 8},
+                   "ops": [healthy("c1", 0), healthy("c2", 0),
+                           authn("c1", "t1", 0), authz("c1", IMP(), 0), authn("c2", "t1", 0),
+                           removeep("c1", "c1s0"), authn("c1", "t2", 1), authz("c1", ATTRS[0], 1),     # c1s1 not healthy yet
+                           addep("c2", "c1s0"), healthy_srv("c1s0"),                                   # re-homed to c2
+                           authn("c1", "t3", 2), authz("c1", ATTRS[2], 2), authn("c2", "t3", 2),
+                           healthy("c1", 1), authn("c1", "t4", 3), authz("c1", ATTRS[3], 3), authz("c1", IMP(), 3, avia="impersonate"),
+                           authn("c2", "t4", 3), authn("c2", "t5", 4), authz("c2", ATTRS[3], 4),
+                           removeep("c2", "c2s0"), authn("c2", "t6", 5), authz("c2", ATTRS[4], 5),     # c2 served by the re-homed server
+                           removeep("c2", "c1s0"), authn("c2", "t7", 6), authz("c2", ATTRS[8], 6),     # c2 has no server left
+                           addep("c1", "c1s0"), addep("c1", "c1s0"), addep("c2", "c1s1"), removeep("c2", "c1s1"),  # no-ops: owned elsewhere
+                           authn("c1", "t8", 7), healthy_srv("c1s0"), healthy("c1", 1, False), authn("c1", "t9", 8),
+                           addep("c2", "spare"), healthy_srv("spare"), authn("c2", "t9", 9), authz("c2", ATTRS[9], 9)]})
     return cs
 
 
@@ -284,6 +324,10 @@ def gen_case(rng, tier):
             if rng.chance(9, 10):
                 ops.append(healthy(c, i))
     with_overlap = rng.chance(1, 8)
+    with_lists = rng.chance(1, 4)
+    lists = {c: [srv(c, i) for i in range(neps[c])] for c in cls}
+    free = ["spare0", "spare1"]
+    fresh_tok = [0]
     now = 0
     steps = [0, 0, 1, 1, 1, 1, 2, 2, 3, 4, 5, 6, 19, 20, 21] + ([999, 1000, 1001] if rng.chance(1, 4) else [])
     for _ in range(nops):
@@ -315,7 +359,11 @@ def gen_case(rng, tier):
                     a = rng.choice(attrs)
                     ops.append(overlaps(h, h2, a, now, "impersonate" if a == IMP() and h is not None and rng.chance(1, 2) else ""))
             elif rng.chance(1, 2):
-                ops.append(authn(h, rng.choice(toks), now, hvia))
+                tok = rng.choice(toks)
+                if with_lists and rng.chance(1, 2):     # a token nobody has seen: the review cannot be served from a cache
+                    fresh_tok[0] += 1
+                    tok = "fresh-%d" % fresh_tok[0]
+                ops.append(authn(h, tok, now, hvia))
             else:
                 a = rng.choice(attrs)
                 # the impersonation filter needs an ExtraRequestInfo-independent route: it only runs with a host context or without
@@ -329,8 +377,38 @@ def gen_case(rng, tier):
         elif k < 92:
             c = rng.choice(cls)
             ops.append({"op": "restart", "c": c})
-            if rng.chance(3, 4) and neps[c] > 0:
-                ops.append(healthy(c, rng.below(neps[c])))
+            if rng.chance(3, 4) and lists[c]:
+                ops.append(healthy_srv(rng.choice(lists[c])))
+        elif with_lists and k < 96:
+            # the clusters' server lists change: remove / add / re-home (remove from one cluster, add to another)
+            owned = [(c, s) for c in cls for s in lists[c]]
+            r = rng.below(10)
+            if r < 3 and owned:
+                c, s = rng.choice(owned)
+                ops.append(removeep(c, s))
+                lists[c].remove(s)
+                free.append(s)
+            elif r < 6 and free:
+                c, s = rng.choice(cls), rng.choice(free)
+                ops.append(addep(c, s))
+                free.remove(s)
+                lists[c].append(s)
+                if rng.chance(4, 5):
+                    ops.append(healthy_srv(s))
+            elif r < 9 and owned:
+                c, s = rng.choice(owned)
+                c2 = rng.choice([x for x in cls if x != c])
+                ops.append(removeep(c, s))
+                ops.append(addep(c2, s))
+                lists[c].remove(s)
+                lists[c2].append(s)
+                if rng.chance(4, 5):
+                    ops.append(healthy_srv(s))
+            else:  # a no-op by construction: wrong owner / already owned
+                c = rng.choice(cls)
+                s = rng.choice([x for _, x in owned] + free + ["ghost"])
+                ops.append(rng.choice([addep, removeep])(rng.choice([x for x in cls if s not in lists[x]] or cls), s)
+                           if s not in free else removeep(c, s))
         elif k < 96:
             ops.append({"op": "evictt", "host": rng.choice(hosts), "tok": rng.choice(toks)})
         else:
@@ -388,9 +466,13 @@ def coq_op(o, names=None):
     if k == "authz":
         return "(OAuthz %s %s %s)" % (copt(model_host(o), cstr), ca(o["attrs"]), cZ(o["now"]))
     if k == "healthy":
-        return "(OHealthy %s %d%%nat %s)" % (cstr(o["c"]), o["i"], cbool(o["b"]))
+        return "(OHealthy %s %s)" % (cstr(o["srv"]), cbool(o["b"]))
     if k == "disabled":
-        return "(ODisabled %s %d%%nat %s)" % (cstr(o["c"]), o["i"], cbool(o["b"]))
+        return "(ODisabled %s %s)" % (cstr(o["srv"]), cbool(o["b"]))
+    if k == "addep":
+        return "(OAddEp %s %s)" % (cstr(o["c"]), cstr(o["srv"]))
+    if k == "removeep":
+        return "(ORemoveEp %s %s)" % (cstr(o["c"]), cstr(o["srv"]))
     if k == "restart":
         return "(ORestart %s)" % cstr(o["c"])
     if k == "evictt":
@@ -445,9 +527,9 @@ def coq_sans(a):
 
 
 def coq_cfg(cfg):
-    return ("{| reg := %s; neps := %s; sttl := %s; fttl := %s; attl := %s; dttl := %s; tretries := %d%%nat; sretries := %d%%nat |}" %
+    return ("{| reg := %s; servers := %s; sttl := %s; fttl := %s; attl := %s; dttl := %s; tretries := %d%%nat; sretries := %d%%nat |}" %
             (clist([cpair(cstr(k), cstr(v)) for k, v in cfg["reg"]]),
-             clist([cpair(cstr(c), "%d%%nat" % n) for c, n in sorted(cfg["neps"].items())]),
+             clist([cpair(cstr(e["c"]), clist([cstr(x) for x in e["s"]])) for e in cfg["servers"]]),
              cZ(cfg["sttl"]), cZ(cfg["fttl"]), cZ(cfg["attl"]), cZ(cfg["dttl"]), TRETRIES, SRETRIES))
 
 
